@@ -903,6 +903,19 @@ private:"""),
          new="    function.clear_statistics();\n    const_cast<solver_t*>(this)->m_type = m_type;\n\n    return do_minimize(function, x0, logger);"),
     dict(property="C18", name="factory-populated-outside-call-once", rule="R-C18-2", file="src/loss.cpp",
          old="    static std::once_flag flag;\n    std::call_once(flag, op);", new="    op();"),
+    dict(property="C18", name="gboost-folds-share-one-targets-iterator", rule="R-C18-6", file="src/gboost/model.cpp",
+         old="""    // tune hyper-parameters (if any)
+    const auto callback = [&](const indices_t& train_samples, const indices_t& valid_samples,
+                              const tensor1d_cmap_t params, const std::any&, const logger_t& logger)
+    {
+""",
+         new="""    auto shared_iterator = targets_iterator_t{dataset, samples};
+    // tune hyper-parameters (if any)
+    const auto callback = [&](const indices_t& train_samples, const indices_t& valid_samples,
+                              const tensor1d_cmap_t params, const std::any&, const logger_t& logger)
+    {
+        shared_iterator.loop([&](tensor_range_t, size_t, tensor4d_cmap_t) {});
+"""),
     # ---- C12
     dict(property="C12", name="kfold-last-fold-drops-remainder", rule="R-C12-1", file="src/splitter/kfold.cpp",
          old="const auto valid_end   = (fold + 1 < folds) ? (valid_begin + chunk) : samples.size();", new="const auto valid_end   = valid_begin + chunk;"),
@@ -989,6 +1002,12 @@ private:
 private:
     template <class tstorage>
     void copy(const tstorage& other)"""),
+    dict(property="C16", name="integral-base-reads-previous-input", rule="R-C16-4", file="include/nano/tensor/integral.h", tu="src/core/sampling.cpp",
+         old="            otensor(i0) = otensor(i0 - 1) + itensor(i0);", new="            otensor(i0) = otensor(i0 - 1) + itensor(i0 - 1);"),
+    dict(property="C16", name="integral-recursion-skips-second-row", rule="R-C16-4", file="include/nano/tensor/integral.h", tu="src/core/sampling.cpp",
+         old="            if (i0 > 0)\n            {\n                otensor.vector(i0) += otensor.vector(i0 - 1);", new="            if (i0 > 1)\n            {\n                otensor.vector(i0) += otensor.vector(i0 - 1);"),
+    dict(property="C16", name="integral-accumulates-in-input-type", rule="R-C16-4", file="include/nano/tensor/integral.h", tu="src/core/sampling.cpp",
+         old="            otensor(i0) = otensor(i0 - 1) + itensor(i0);", new="            otensor(i0) = static_cast<tscalaro>(static_cast<tscalari>(static_cast<tscalari>(otensor(i0 - 1)) + itensor(i0)));"),
     # ---- C09
     dict(property="C09", name="linear-accumulator-sum-drops-gW1", rule="R-C09-2", file="src/linear/accumulator.cpp",
          old="    m_gW1 += other.m_gW1;\n", new=""),
@@ -1211,4 +1230,19 @@ BENIGN = [
     }
 
     auto b() const"""),
+    dict(property="C16", name="integral-base-operands-swapped", file="include/nano/tensor/integral.h", tu="src/core/sampling.cpp",
+         old="            otensor(i0) = otensor(i0 - 1) + itensor(i0);", new="            otensor(i0) = itensor(i0) + otensor(i0 - 1);"),
+    dict(property="C18", name="gboost-folds-read-shared-iterator-samples", file="src/gboost/model.cpp",
+         old="""    // tune hyper-parameters (if any)
+    const auto callback = [&](const indices_t& train_samples, const indices_t& valid_samples,
+                              const tensor1d_cmap_t params, const std::any&, const logger_t& logger)
+    {
+""",
+         new="""    auto shared_iterator = targets_iterator_t{dataset, samples};
+    // tune hyper-parameters (if any)
+    const auto callback = [&](const indices_t& train_samples, const indices_t& valid_samples,
+                              const tensor1d_cmap_t params, const std::any&, const logger_t& logger)
+    {
+        (void)shared_iterator.samples();
+"""),
 ]
